@@ -254,7 +254,16 @@ fn eval_case(prop: &str, case_id: &str, h: &History, rep: &mut Report, args: &Ar
                 }
                 "C14" => {
                     let data = Rc::new(out.clone());
-                    fails.extend(check_config(h, MonReader::plain(data), len));
+                    // every other output is re-opened from a source that returns short reads
+                    // (at most 1..=7 resp. 1..=4096 bytes per call, like a BufReader / pipe):
+                    // what the accessors report must not depend on how the bytes arrive
+                    let ctl = crate::streams::Ctl::new();
+                    match len % 4 {
+                        1 => { ctl.chunk.set(7); ctl.chunk_random.set(true); rep.add("outputs_reopened_from_a_short_reading_source", 1); }
+                        3 => { ctl.chunk.set(4096); ctl.chunk_random.set(true); rep.add("outputs_reopened_from_a_short_reading_source", 1); }
+                        _ => {}
+                    }
+                    fails.extend(check_config(h, MonReader::new(data, ctl), len));
                 }
                 _ => {}
             }
